@@ -763,7 +763,26 @@ class Gen:
                 name = self.fresh("var")
                 env.ptrs.append(name)
                 size = [Lx(d.choice(self.macros), "id", ("macro",))] if self.macros and d.bool(0.4) else [Lx(str(d.int(1, 512)), "num", ("const:dec",))]
-                out.append((d.choice(["char", "int", "long"]), [Lx(name, "id", ("decl-name",)), Lx("[", "br")] + size + [Lx("]", "br")]))
+                if d.bool(0.12):
+                    size = [Lx("'z'", "chr"), SP(), Lx("-", "op", ("binop", "binop:-")), SP(), Lx("'a'", "chr"), SP(), Lx("+", "op", ("binop", "binop:+")), SP(),
+                            Lx("1", "num", ("const:dec",))]
+                    self.tag("decl:array-size-with-char-constants")
+                dec = [Lx(name, "id", ("decl-name",)), Lx("[", "br")] + size + [Lx("]", "br")]
+                ty = d.choice(["char", "int", "long"])
+                if d.bool(0.15):
+                    dec += [Lx("[", "br"), Lx(str(d.int(1, 9)), "num", ("const:dec",)), Lx("]", "br")]
+                    self.tag("decl:array2d")
+                elif d.bool(0.15):
+                    ty = "static const " + ty
+                    vals = []
+                    for n in range(d.int(1, 4)):
+                        if n:
+                            vals += [Lx(",", "comma"), SP()]
+                        vals += self.constant(True)
+                    dec = [Lx(name, "id", ("decl-name",)), Lx("[", "br"), Lx("]", "br"), SP(), Lx("=", "op", ("asgop", "init")), SP(), Lx("{", "brace", ("init-brace",))] + vals + \
+                        [Lx("}", "brace", ("init-brace",))]
+                    self.tag("decl:static-array-init")
+                out.append((ty, dec))
                 self.tag("decl:array")
             elif k == "struct":
                 name = self.fresh("var")
@@ -855,14 +874,20 @@ class Gen:
                 ty = d.choice(["char", "const char", "int", "void", "unsigned char"])
                 if ty == "void":
                     env.ptrs.pop()
-                stars = d.weighted([(6, 1), (1, 2)])
-                out += self.type_lex(ty) + [SP()] + [Lx("*", "op", ("ptr-param",)) for _ in range(stars)] + [Lx(name, "id", ("param-name",))]
+                stars = d.weighted([(12, 1), (3, 2), (1, 3)])
+                cq = [Lx("const", "kw"), SP()] if d.bool(0.08) else []      # char *const p
+                if cq:
+                    self.tag("param:const-pointer")
+                out += self.type_lex(ty) + [SP()] + [Lx("*", "op", ("ptr-param",)) for _ in range(stars)] + cq + [Lx(name, "id", ("param-name",))]
             elif k == "array":
                 env.ptrs.append(name)
-                out += self.type_lex(d.choice(["int", "char"])) + [SP(), Lx(name, "id", ("param-name",)), Lx("[", "br")]
+                stars = [Lx("*", "op", ("ptr-param",))] if d.bool(0.25) else []    # char *av[]
+                out += self.type_lex(d.choice(["int", "char"])) + [SP()] + stars + [Lx(name, "id", ("param-name",)), Lx("[", "br")]
                 if d.bool():
                     out += [Lx(str(d.int(1, 64)), "num", ("const:dec",))]
                 out += [Lx("]", "br")]
+                if d.bool(0.15):
+                    out += [Lx("[", "br"), Lx(str(d.int(1, 9)), "num", ("const:dec",)), Lx("]", "br")]
                 self.tag("param:array")
             elif k == "fptr":
                 env.fptrs.append(name)
@@ -1025,6 +1050,9 @@ class Gen:
                     [Lx(str(d.int(1, 9)), "num", ("const:dec",)), SP(), Lx("*", "op", ("binop", "binop:*")), SP(), Lx("(", "par"), Lx("1", "num", ("const:dec",)), SP(),
                      Lx("+", "op", ("binop", "binop:+")), SP(), Lx("1", "num", ("const:dec",)), Lx(")", "par")],
                     [Lx(str(d.int(2, 512)), "num", ("const:dec",))],
+                    [Lx("'z'", "chr"), SP(), Lx("-", "op", ("binop", "binop:-")), SP(), Lx("'a'", "chr"), SP(), Lx("+", "op", ("binop", "binop:+")), SP(), Lx("1", "num", ("const:dec",))],
+                    [Lx("'Z'", "chr"), SP(), Lx("+", "op", ("binop", "binop:+")), SP(), Lx("1", "num", ("const:dec",))],
+                    [Lx("sizeof", "kw"), Lx("(", "par"), Lx('"abc"', "str"), Lx(")", "par")],
                 ])
                 dec = [Lx(name, "id", ("decl-name", "global-name")), Lx("[", "br")] + size + [Lx("]", "br")]
                 self.tag("global:sized-array")
@@ -1198,6 +1226,16 @@ def gen_h(d, opts=None, name=None, guard=True):
         g.blank()
         g.macros.append(m)
         g.tag("section:ifndef-define")
+    if d.bool(0.15):
+        m = g.fresh("macro", upper=True, lo=3, hi=10)
+        a, b = d.choice(["linux/limits", "limits", "sys/types"]), d.choice(["sys/syslimits", "stdint", "stddef"])
+        g.emit([Lx("#", "hash")] + [SP()] * ind + [Lx("ifdef", "pp"), SP(), Lx(m, "id", ("macro",))], "ifndef", 0, -1, info={"ppdepth": ind})
+        g.emit([Lx("#", "hash")] + [SP()] * (ind + 1) + [Lx("include", "pp"), SP(), Lx("<%s.h>" % a, "inc")], "include", 0, -1, info={"ppdepth": ind + 1})
+        g.emit([Lx("#", "hash")] + [SP()] * ind + [Lx("else", "pp")], "ppelse", 0, -1, info={"ppdepth": ind})
+        g.emit([Lx("#", "hash")] + [SP()] * (ind + 1) + [Lx("include", "pp"), SP(), Lx("<%s.h>" % b, "inc")], "include", 0, -1, info={"ppdepth": ind + 1})
+        g.emit([Lx("#", "hash")] + [SP()] * ind + [Lx("endif", "pp")], "endif", 0, -1, info={"ppdepth": ind})
+        g.blank()
+        g.tag("section:ifdef-else-include")
     # items: all names of the file's global scope share one column
     items = []
     nitems = d.int(1, 4)
@@ -1219,6 +1257,11 @@ def gen_h(d, opts=None, name=None, guard=True):
                 t = g.fresh("tdef", prefix="t_", lo=2, hi=8)
                 g.tdefs.append(t)
                 ty = "typedef " + d.choice(["int", "unsigned int", "char", "long", "unsigned char", "unsigned long long"])
+                if d.bool(0.2):     # typedef int	(*t_cmp)(void *, void *);
+                    g.tag("alias:fptr")
+                    specs.append((ty, [Lx("(", "par"), Lx("*", "op", ("ptr-decl",)), Lx(t, "id", ("decl-name", "typedef-name")), Lx(")", "par"), Lx("(", "par")] + g.ptypes() +
+                                  [Lx(")", "par"), Lx(";", "semi")]))
+                    continue
                 dec = [Lx("*", "op", ("ptr-decl",))] if d.bool(0.2) else []
                 specs.append((ty, dec + [Lx(t, "id", ("decl-name", "typedef-name")), Lx(";", "semi")]))
             built.append((k, specs))
@@ -1260,8 +1303,16 @@ def _members(g, n):
     for _ in range(n):
         name = g.d.choice(["x", "y", "len", "next", "val", "size", "data", "count", "idx", "fd", "prev", "content", "key", "str", "tab"])
         name = name + ("" if d.bool(0.5) else str(d.int(0, 9)))
-        k = d.weighted([(6, "int"), (3, "ptr"), (1, "array"), (1, "fptr"), (1, "bits")])
-        if k == "int":
+        k = d.weighted([(6, "int"), (3, "ptr"), (1, "array"), (1, "fptr"), (1, "bits"), (1, "self"), (1, "tdef")])
+        if k == "self" and g.stags:
+            specs.append(("struct " + d.choice(g.stags), [Lx("*", "op", ("ptr-decl",)), Lx(name, "id", ("decl-name", "member-decl"))]))
+            g.tag("member:struct-pointer")
+        elif k == "tdef" and g.tdefs:
+            specs.append((d.choice(g.tdefs), ([Lx("*", "op", ("ptr-decl",))] if d.bool() else []) + [Lx(name, "id", ("decl-name", "member-decl"))]))
+            g.tag("member:typedef-type")
+        elif k in ("self", "tdef"):
+            specs.append((g.arith_type(), [Lx(name, "id", ("decl-name", "member-decl"))]))
+        elif k == "int":
             specs.append((g.arith_type(), [Lx(name, "id", ("decl-name", "member-decl"))]))
         elif k == "ptr":
             ty = d.choice(["char", "void", "int", "struct s_list"] if False else ["char", "void", "int", "unsigned char"])
